@@ -119,18 +119,38 @@ def load_realign(repo):
     if got != os.path.join(repo, "gaftools"):
         raise RuntimeError("gaftools imported from %s, expected %s" % (got, repo))
     realign_path = os.path.join(repo, "gaftools", "cli", "realign.py")
-    _MOD_INFO["foreign"] = scan_imports(realign_path)
-    _MOD_INFO["sha"] = hashlib.sha256(open(realign_path, "rb").read()).hexdigest()[:16]
+    # everything the gaftools modules depend on is in sys.modules now (imported against the real
+    # `multiprocessing` and `time`).  The gaftools modules themselves are imported once more under the
+    # seam, so that `import multiprocessing` / `import time` anywhere in them binds to the model.
+    used = ["gaftools/__init__.py", "gaftools/cli/__init__.py", "gaftools/gaf.py", "gaftools/gfa.py", "gaftools/timer.py",
+            "gaftools/utils.py", "gaftools/cli/realign.py"]
+    foreign = []
+    h = hashlib.sha256()
+    for rel in used:
+        pth = os.path.join(repo, rel)
+        if os.path.exists(pth):
+            foreign += ["%s:%s" % (os.path.basename(rel), x) for x in scan_imports(pth)]
+            h.update(open(pth, "rb").read())
+    _MOD_INFO["foreign"] = foreign
+    _MOD_INFO["sha"] = h.hexdigest()[:16]
     fake, subs = simmp.make_module()
     _MOD_INFO["fake_mp"] = fake
     saved = {k: v for k, v in sys.modules.items() if k == "multiprocessing" or k.startswith("multiprocessing.") or k == "time"}
     for k in saved:
         del sys.modules[k]
+    for k in [k for k in sys.modules if k == "gaftools" or k.startswith("gaftools.")]:
+        del sys.modules[k]
     sys.modules["multiprocessing"] = fake
     sys.modules.update(subs)
     sys.modules["time"] = SIM_TIME
     try:
-        sys.modules.pop("gaftools.cli.realign", None)
+        import gaftools  # noqa: F811
+        import gaftools.cli  # noqa: F811
+        import gaftools.gaf  # noqa: F811
+        import gaftools.gfa  # noqa: F811
+        import gaftools.timer  # noqa: F811
+        import gaftools.utils  # noqa: F401,F811
+
         mod = importlib.import_module("gaftools.cli.realign")
     finally:
         for k in list(sys.modules):
